@@ -40,6 +40,9 @@ type topo struct {
 	Rnd string `json:"rnd_connector_matrix,omitempty"`
 	// reference verdict
 	Invalid string `json:"invalid,omitempty"`
+	// ShutCtxDone (C10): service.Shutdown is called with a context that is already cancelled; a component whose
+	// Shutdown fails then fails with (a wrap of) that context's error
+	ShutCtxDone bool `json:"shutdown_context_done,omitempty"`
 }
 
 func isConn(id string) bool {
@@ -671,9 +674,19 @@ func runLifetimeSet(r *simkit.Run, t *topo, fails map[string]string) *lifeResult
 		return res
 	}
 	res.startErr = srv.Start(context.Background())
-	res.shutErr = srv.Shutdown(context.Background())
+	res.shutErr = srv.Shutdown(shutdownCtx(t))
 	res.log = w.Log()
 	return res
+}
+
+// shutdownCtx: the context handed to service.Shutdown (already cancelled when the topology says so).
+func shutdownCtx(t *topo) context.Context {
+	if !t.ShutCtxDone {
+		return context.Background()
+	}
+	ctx, cancel := context.WithCancel(context.Background())
+	cancel()
+	return ctx
 }
 
 // consumersOf returns, for a started component key, the keys of the components it sends data to (from the config).
@@ -964,6 +977,8 @@ func runC10(r *simkit.Run) {
 		t.Exts = append([]string{"watch/1"}, t.Exts...)
 		r.Sample = t
 	}
+	t.ShutCtxDone = tp.Chance(1, 4)
+	r.Sample = t
 	mode := tp.Weighted(1, 3, 2, 1) // 0: one failure position from the tape (replay target); 1: enumerate all positions; 2: a set of failures
 	base := runLifetime(r, &t, "", "")
 	if base.buildErr != nil {
@@ -1055,7 +1070,7 @@ func runC10(r *simkit.Run) {
 			return
 		}
 		res.startErr = srv2.Start(context.Background())
-		res.shutErr = srv2.Shutdown(context.Background())
+		res.shutErr = srv2.Shutdown(shutdownCtx(&t))
 		for _, e := range w.Log()[first:] {
 			e.Seq -= first
 			res.log = append(res.log, e)
